@@ -35,6 +35,8 @@ COMPONENTS = {
     "real": ["binpacking2d.experiment.rls/fea/base_setup, all 7 objectives, both "
              "encodings, PackingSpace", "tsp EA/FEA + TourLength",
              "examples/ttp_example_experiment_rls_rs.py, "
+             "examples/ttp_example_experiment_mo.py (Prioritize(Errors, "
+             "GamePlanLength), RLS and NSGA-2, archive), "
              "examples/qap_example_experiment_rls_rs.py builders (Errors, "
              "GameEncoding, GamePlanSpace, QAPObjective)",
              "instgen.experiment.cmaes + Problem/InstanceDecoder/"
@@ -67,7 +69,7 @@ PROBES = ["job_first_in_interpreter", "job_after_same_execution",
           "second_round_finds_files", "restart_completed_rest",
           "torn_or_empty_log_rejected", "domain:bp", "domain:tsp",
           "domain:ttp", "domain:qap", "domain:instgen", "domain:dc",
-          "domain:dcs",
+          "domain:dcs", "domain:ttpmo",
           "evaluate_from_logs"]
 HARD_CAP_S = 900.0
 CHUNK = 1
@@ -83,13 +85,15 @@ def plan(tier: str) -> list:
         return [{"name": "nofault", "n": 18, "faults": False,
                  "domains": ["bp", "bp", "tsp", "ttp", "qap"]},
                 {"name": "fault", "n": 44, "faults": True,
-                 "domains": ["bp", "bp", "bp", "tsp", "ttp", "qap"]},
+                 "domains": ["bp", "bp", "bp", "bp", "tsp", "tsp", "ttp",
+                             "ttp", "qap", "qap", "ttpmo"]},
                 {"name": "heavy", "n": 4, "faults": True,
                  "domains": ["instgen", "dc", "instgen", "dc", "dcs"]}]
     return [{"name": "nofault", "n": 800, "faults": False,
              "domains": ["bp", "bp", "tsp", "ttp", "qap"]},
             {"name": "fault", "n": 2800, "faults": True,
-             "domains": ["bp", "bp", "bp", "tsp", "ttp", "qap"]},
+             "domains": ["bp", "bp", "bp", "bp", "tsp", "tsp", "ttp", "ttp",
+                         "qap", "qap", "ttpmo"]},
             {"name": "heavy", "n": 120, "faults": True,
              "domains": ["instgen", "dc", "instgen", "dc", "dcs"]}]
 
@@ -115,6 +119,9 @@ def _gen_setups(rng: random.Random, dom: str) -> list:
         return rng.choice([["tsp:ea"], ["tsp:fea"], ["tsp:ea", "tsp:fea"]])
     if dom == "ttp":
         return rng.choice([["ttp:rls"], ["ttp:rs"], ["ttp:rls", "ttp:rs"]])
+    if dom == "ttpmo":
+        return rng.choice([["ttpmo:rls"], ["ttpmo:nsga2"],
+                           ["ttpmo:rls", "ttpmo:nsga2"]])
     if dom == "qap":
         return rng.choice([["qap:rls"], ["qap:rs"], ["qap:rls", "qap:rs"]])
     if dom == "instgen":
@@ -218,7 +225,8 @@ def directed(tier: str) -> list:
     for dom, setups, insts, budget in (
             ("tsp", ["tsp:ea", "tsp:fea"], ["tsp:burma14", "tsp:gr17"], 100),
             ("ttp", ["ttp:rls", "ttp:rs"], ["ttp:circ4", "ttp:nl6"], 80),
-            ("qap", ["qap:rls", "qap:rs"], ["qap:nug12"], 80)):
+            ("qap", ["qap:rls", "qap:rs"], ["qap:nug12"], 80),
+            ("ttpmo", ["ttpmo:rls", "ttpmo:nsga2"], ["ttpmo:circ6"], 60)):
         docs.append({"domain": dom, "setups": setups, "instances": insts,
                      "budget": budget, "boots": [
             {"hashseed": "21", "clock": {"mode": "fixed", "tick": 1000},
@@ -493,7 +501,8 @@ def _inst_data(inst_id: str) -> dict:
     elif dom == "qap":
         d["flows"] = [[int(v) for v in r] for r in inst.flows]
         d["dists"] = [[int(v) for v in r] for r in inst.distances]
-    elif dom == "ttp":
+    elif dom in ("ttp", "ttpmo"):
+        d["dist"] = [[int(v) for v in r] for r in np.asarray(inst)]
         d.update({"n": int(inst.n_cities), "rounds": int(inst.rounds),
                   "hs": [int(inst.home_streak_min), int(inst.home_streak_max)],
                   "as": [int(inst.away_streak_min), int(inst.away_streak_max)],
@@ -581,33 +590,82 @@ def _truth(dom: str, setup_id: str, inst_id: str, rec: dict, budget: int,
                                f"flow-distance sum of {perm} is {want}",
                                domain=dom)
                 return False
-        elif dom == "ttp":
+        elif dom in ("ttp", "ttpmo"):
             n = d["n"]
             days = (n - 1) * d["rounds"]
-            flat = [int(v) for v in rec["y"].split("\n")[0].split(";")]
-            plan_ = [flat[i * n:(i + 1) * n] for i in range(days)]
-            bad = ttorc.shape_problems(plan_, n, days) \
-                if len(flat) == n * days else ["shape"]
-            if bad:
-                core.violation(res, f"final-solution-infeasible:{bad[0]}",
-                               f"{where}: plan {plan_} has {bad}")
+
+            def check_plan(xtext, ytext, what):
+                flat = [int(v) for v in ytext.split("\n")[0].split(";")]
+                plan_ = [flat[i * n:(i + 1) * n] for i in range(days)]
+                bad = ttorc.shape_problems(plan_, n, days) \
+                    if len(flat) == n * days else ["shape"]
+                if bad:
+                    core.violation(
+                        res, f"final-solution-infeasible:{bad[0]}",
+                        f"{where}: {what} plan {plan_} has {bad}")
+                    return None
+                x = [int(v) for v in xtext.split(";")]
+                if ttorc.decode_games(x, n, days) != plan_:
+                    core.violation(
+                        res, "final-solution-not-the-decoding-of-x",
+                        f"{where}: {what} plan is not the earliest-slot "
+                        f"decoding of the logged permutation {x}")
+                    return None
+                err = ttorc.errors_consistent(
+                    plan_, n, d["rounds"], d["hs"][0], d["hs"][1],
+                    d["as"][0], d["as"][1], d["sep"][0], d["sep"][1])
+                return plan_, err
+            got = check_plan(rec["x"], rec["y"], "best")
+            if got is None:
                 return False
-            x = [int(v) for v in rec["x"].split(";")]
-            if ttorc.decode_games(x, n, days) != plan_:
-                core.violation(
-                    res, "final-solution-not-the-decoding-of-x",
-                    f"{where}: logged plan is not the earliest-slot "
-                    f"decoding of the logged permutation {x}")
-                return False
-            want = ttorc.errors_consistent(
-                plan_, n, d["rounds"], d["hs"][0], d["hs"][1], d["as"][0],
-                d["as"][1], d["sep"][0], d["sep"][1])
-            if str(want) != rec["best_f"]:
-                core.violation(res, "logged-value-not-true",
-                               f"{where}: logged bestF={rec['best_f']}, "
-                               f"documented error count of the logged plan "
-                               f"is {want}; plan {plan_}", domain=dom)
-                return False
+            plan_, want = got
+            if dom == "ttp":
+                if str(want) != rec["best_f"]:
+                    core.violation(
+                        res, "logged-value-not-true",
+                        f"{where}: logged bestF={rec['best_f']}, documented "
+                        f"error count of the logged plan is {want}; plan "
+                        f"{plan_}", domain=dom)
+                    return False
+            else:
+                bye = 2 * max(max(r) for r in d["dist"]) + 1
+                ub_len = n * days * bye
+                length = ttorc.plan_length(plan_, d["dist"], bye)
+                scal = want * (1 + ub_len) + length
+                if rec["best_fs"] != f"{want};{length}" or \
+                        str(scal) != rec["best_f"]:
+                    core.violation(
+                        res, "logged-value-not-true",
+                        f"{where}: logged bestF={rec['best_f']} bestFs="
+                        f"{rec['best_fs']}; errors/length of the logged "
+                        f"plan are {want}/{length}, prioritised sum {scal} "
+                        f"(bye penalty {bye}, length bound {ub_len})",
+                        domain=dom)
+                    return False
+                # every archived solution must be true as well
+                quals = rec["archive_qualities"][1:]
+                if len(quals) != len(rec["archive"]):
+                    core.violation(res, "logged-value-not-true",
+                                   f"{where}: {len(rec['archive'])} archived "
+                                   f"solutions, {len(quals)} quality rows",
+                                   domain=dom)
+                    return False
+                for k, (ax, ay) in enumerate(rec["archive"]):
+                    g2 = check_plan(ax, ay, f"archive[{k}]")
+                    if g2 is None:
+                        return False
+                    p2, e2 = g2
+                    l2 = ttorc.plan_length(p2, d["dist"], bye)
+                    row = quals[k].split(";")
+                    if [str(e2 * (1 + ub_len) + l2), str(e2), str(l2)] != \
+                            row[-3:]:
+                        core.violation(
+                            res, "logged-value-not-true",
+                            f"{where}: archive[{k}] logged qualities {row}, "
+                            f"recomputed f/errors/length "
+                            f"{e2 * (1 + ub_len) + l2}/{e2}/{l2}",
+                            domain=dom)
+                        return False
         elif dom == "instgen":
             parts = rec["y"].split(";")
             name, W, H = parts[0], int(parts[2]), int(parts[3])
@@ -915,7 +973,7 @@ def _run_scenario(doc, dom, budget, root, base, res, seeds_fn) -> None:
         rr = ref["record"]
         for field in ("best_f", "total_fes", "last_improvement_fe", "y", "x",
                       "progress", "objective", "algorithm", "f_lower",
-                      "f_upper"):
+                      "f_upper", "best_fs", "archive", "archive_qualities"):
             if rec[field] != rr[field]:
                 core.violation(
                     res, "run-differs-from-history-free-reference",
